@@ -28,20 +28,20 @@ type pathSpec struct {
 }
 
 type pathRun struct {
-	prefix  []decision
-	trace   []decision
-	pos     int
-	alts    []pathSpec
-	reached map[string]bool
-	observe map[string]string
-	nondets []nondetRec // declaration order
-	choices []int // every structural choice (harness, schedule, range order)
-	hchoices []int // the harness' own verifrt.Choice calls only (what a native run consumes)
-	knownHit bool  // a listed known finding was hit on this path (not a witness of agreement)
-	asserts int // assertions discharged on this path
-	trivial int // assertions that were concretely true
-	queries int
-	samples []string
+	prefix   []decision
+	trace    []decision
+	pos      int
+	alts     []pathSpec
+	reached  map[string]bool
+	observe  map[string]string
+	nondets  []nondetRec // declaration order
+	choices  []int       // every structural choice (harness, schedule, range order)
+	hchoices []int       // the harness' own verifrt.Choice calls only (what a native run consumes)
+	knownHit bool        // a listed known finding was hit on this path (not a witness of agreement)
+	asserts  int         // assertions discharged on this path
+	trivial  int         // assertions that were concretely true
+	queries  int
+	samples  []string
 }
 
 type nondetRec struct {
@@ -51,15 +51,15 @@ type nondetRec struct {
 }
 
 type Violation struct {
-	Label   string            `json:"label"`
-	Harness string            `json:"harness"`
-	Observe map[string]string `json:"observe,omitempty"`
-	Model   map[string]uint64 `json:"model"`
-	Choices []int             `json:"choices"`     // harness choices (native replay)
-	AllChoices []int          `json:"all_choices"` // incl. schedule and range orders (executor replay)
-	Trace   string            `json:"trace,omitempty"`
-	Known   string            `json:"known,omitempty"`
-	Replay  string            `json:"replay,omitempty"`
+	Label      string            `json:"label"`
+	Harness    string            `json:"harness"`
+	Observe    map[string]string `json:"observe,omitempty"`
+	Model      map[string]uint64 `json:"model"`
+	Choices    []int             `json:"choices"`     // harness choices (native replay)
+	AllChoices []int             `json:"all_choices"` // incl. schedule and range orders (executor replay)
+	Trace      string            `json:"trace,omitempty"`
+	Known      string            `json:"known,omitempty"`
+	Replay     string            `json:"replay,omitempty"`
 }
 
 type Config struct {
@@ -81,18 +81,18 @@ type Config struct {
 	Witnesses    int
 	FixedModel   map[string]uint64
 	FixedChoices []int
-	Verbose       bool
+	Verbose      bool
 }
 
 type Explorer struct {
 	firstViolation time.Time // when the first (unlisted) counterexample of this harness was recorded
-	P    *Program
-	cfg  Config
-	fn   *ssa.Function
-	mu   sync.Mutex
-	work []pathSpec
-	busy int
-	cond *sync.Cond
+	P              *Program
+	cfg            Config
+	fn             *ssa.Function
+	mu             sync.Mutex
+	work           []pathSpec
+	busy           int
+	cond           *sync.Cond
 
 	paths, pathsDone, infeasible    int64
 	structForks, solverForks        int64
@@ -121,10 +121,10 @@ type Explorer struct {
 // Witness is the solver's model of one completed path (replayed natively to
 // validate the executor against the real build).
 type Witness struct {
-	Model   map[string]uint64
-	Choices []int
+	Model      map[string]uint64
+	Choices    []int
 	AllChoices []int
-	Trace   string
+	Trace      string
 }
 
 func newExplorer(P *Program, fn *ssa.Function, cfg Config) *Explorer {
@@ -373,7 +373,12 @@ func (e *Explorer) runPath(spec pathSpec, solver *Solver) {
 
 // violationGrace: how long a harness keeps exploring after its first
 // counterexample.
-const violationGrace = 90 * time.Second
+var violationGrace = func() time.Duration {
+	if os.Getenv("SYMGO_FAIL_FAST") != "" {
+		return 10 * time.Second
+	}
+	return 90 * time.Second
+}()
 
 func (e *Explorer) note(msg string) {
 	e.mu.Lock()
